@@ -99,6 +99,8 @@ type Exec struct {
 	nextOpaque  int
 	nowCount    int
 	lastNow     *T
+	timeOrigin  map[*T]*T     // nsec term of a time.Time built by timeFromUnixNano -> its unix-nanosecond term
+	noIntr      *ssa.Function // the next call of this function bypasses its intrinsic (fallback to the real body)
 	approx      []string
 	timerOf     map[*Value]*Timer
 	vecs        map[*Value]*vecState
@@ -953,7 +955,9 @@ func (ex *Exec) callFn(caller *frame, fn *ssa.Function, args []Value, env []Valu
 	if stub, ok := ex.h.Stubs[fnKey(fn)]; ok {
 		return ex.call(caller, stub, args)
 	}
-	if intr := lookupIntrinsic(ex, fn); intr != nil {
+	if ex.noIntr == fn {
+		ex.noIntr = nil
+	} else if intr := lookupIntrinsic(ex, fn); intr != nil {
 		return intr(ex, caller, fn, args)
 	}
 	if fn.Blocks == nil {
@@ -1386,4 +1390,11 @@ func (ex *Exec) enterBlock(fr *frame) {
 		fr.set(phi, vals[i])
 	}
 	fr.skipPhis = len(phis)
+}
+
+// callFnNoIntrinsic runs the real body of a function that has an intrinsic (used by intrinsics that only
+// cover a special case).
+func (ex *Exec) callFnNoIntrinsic(caller *frame, fn *ssa.Function, args []Value) Value {
+	ex.noIntr = fn
+	return ex.callFn(caller, fn, args, nil)
 }
